@@ -278,12 +278,14 @@ def t4(ctx, fi, ff):
     floor(ctx, 'round() calls in get_container_flows', n, 1)
 
 
-def t5(ctx):
-    """numpy.vectorize discipline over the whole library."""
+def t5(ctx, rule='C15.R2', only=None, dtype_only=False):
+    """numpy.vectorize / frompyfunc discipline over the whole library (or the functions named in `only`)."""
     model = ctx.model
     n = 0
     for fi in model.functions():
         if fi.parent is not None:
+            continue
+        if only is not None and fi.qualname not in only:
             continue
         for c in ast.walk(fi.node):
             if not (isinstance(c, ast.Call) and unparse(c.func).split('.')[-1] == 'vectorize' and c.args):
@@ -301,7 +303,8 @@ def t5(ctx):
                     body = [r.value for r in ast.walk(defs[0]) if isinstance(r, ast.Return) and r.value is not None]
             if body is not None:
                 src = ' '.join(unparse(b, 400) for b in body)
-                numeric = any(k in src for k in ('sum(', 'convert', 'get_volume', 'get_concentration', 'amount'))
+                numeric = any(k in src for k in ('sum(', 'convert', 'get_volume', 'get_concentration', 'amount')) or \
+                    any(_numeric_expr(b) for b in body)
                 objecty = any(k in src for k in ('set(', '.transfer(', '.remove(', '.fill_to(', 'elem,', 'return elem'))
                 if objecty and not numeric:
                     numeric = False
@@ -310,13 +313,40 @@ def t5(ctx):
                 why = 'without otypes numpy takes the dtype from the first well: an empty first well (int 0) truncates ' \
                       'every later amount to an integer'
             else:
+                if dtype_only:
+                    continue
                 ok = 'otypes' in kws or 'cache' in kws or numeric is None
                 why = 'without cache=True numpy calls the function once more on the first element'
-            ctx.ob('C15.R2', fi, c.lineno, f"numpy.vectorize({unparse(fn, 30)}) in {fi.qualname}: "
+            ctx.ob(rule, fi, c.lineno, f"numpy.vectorize({unparse(fn, 30)}) in {fi.qualname}: "
                                            f"{'numeric result needs otypes' if numeric else 'no warm-up call'}", ok,
                    fact=f"keywords {sorted(kws)}", why=why,
                    key=f"vectorize without otypes: {unparse(fn, 30)}" if numeric else f"vectorize without cache: {unparse(fn, 30)}")
-    floor(ctx, 'numpy.vectorize call sites', n, 3)
+    if only is None:
+        floor(ctx, 'numpy.vectorize call sites', n, 3)
+
+
+def _numeric_expr(e):
+    """Does the returned expression denote a number read from the stored amounts (contents.get(k, 0), contents[k],
+    arithmetic on those)?"""
+    if isinstance(e, ast.Constant):
+        return isinstance(e.value, (int, float)) and not isinstance(e.value, bool)
+    if isinstance(e, ast.BinOp):
+        return _numeric_expr(e.left) or _numeric_expr(e.right)
+    if isinstance(e, ast.IfExp):
+        return _numeric_expr(e.body) or _numeric_expr(e.orelse)
+    if isinstance(e, ast.Call):
+        f = e.func
+        if isinstance(f, ast.Name) and f.id in ('float', 'int', 'round', 'abs', 'len', 'sum', 'max', 'min'):
+            return True
+        if isinstance(f, ast.Attribute) and f.attr == 'get' and isinstance(f.value, ast.Attribute) and \
+                f.value.attr in ('contents', 'trash'):
+            return True
+        return False
+    if isinstance(e, ast.Subscript):
+        return isinstance(e.value, ast.Attribute) and e.value.attr in ('contents', 'trash')
+    if isinstance(e, ast.Attribute):
+        return e.attr in ('volume', 'max_volume')
+    return False
 
 
 def precision_of_requested_unit(ctx, rule, qualnames):
